@@ -124,6 +124,9 @@ var _ = utils.SpecHasPrefix
 //@   tags C19
 //@   opt termination C19
 //@   results err
+//@   rtc recv NewAssemble(NewContext(context.New("/nonexistent-root", "toolchain.yaml")))
+//@   rtc import "github.com/coreruleset/crs-toolchain/v2/context"
+//@   rtc tokens "##!=<" "##!=>" " " "\x0b" "\u00a0" "a" "\t"
 
 //@ contract Assemble.Complete
 //@   tags C19
@@ -162,6 +165,7 @@ var _ = utils.SpecHasPrefix
 //@   opt termination C19
 //@   opt trust-pre CmdLine.regexpStr/ascii
 //@   results err
+//@   checks[C04] the-entry-is-translated-as-written: implies(len(line) != 0, called(regexpStr) && argOf(regexpStr, 0) == line)
 
 //@ contract CmdLine.Complete
 //@   tags C19
